@@ -376,6 +376,9 @@ func (c *DefaultCtx) Body() []byte {
 func (c *DefaultCtx) ClearCookie(key ...string) {
 	if len(key) > 0 {
 		for i := range key {
+			if containsCRLF(key[i]) {
+				continue
+			}
 			c.fasthttp.Response.Header.DelClientCookie(key[i])
 		}
 		return
@@ -410,6 +413,10 @@ func (c *DefaultCtx) SetContext(ctx context.Context) {
 
 // Cookie sets a cookie by passing a cookie struct.
 func (c *DefaultCtx) Cookie(cookie *Cookie) {
+	// A field with a line break would end the Set-Cookie header line early; such a cookie is not sent.
+	if containsCRLF(cookie.Name) || containsCRLF(cookie.Value) || containsCRLF(cookie.Path) || containsCRLF(cookie.Domain) {
+		return
+	}
 	fcookie := fasthttp.AcquireCookie()
 	fcookie.SetKey(cookie.Name)
 	fcookie.SetValue(cookie.Value)
